@@ -107,10 +107,10 @@ class Driver:
 
     def show(self, source, j, st=None):
         """The code `source` prints for job j (seeded per trace and job; the first code of each list is
-        the plain one and is used for two thirds of the jobs)."""
+        the plain one and is used for half of the jobs, the others cycle through the list)."""
         codes = self.SHOW[source][st or j["st"]]
         r = random.Random(self.variant * 7919 + j["id"] * 31 + len(source))
-        return codes[0] if r.random() < 0.67 else r.choice(codes)
+        return codes[0] if r.random() < 0.5 else codes[(self.variant + j["id"]) % len(codes)]
 
     def render(self):
         if self.backend == "local":
